@@ -73,10 +73,10 @@ func init() {
 	}
 `, New: ``}}})
 	addMutant(Mutant{Name: "c08-geq-to-gtr", Props: []string{"C08"}, Rule: "R-SEQ", KeySub: "progression-predicate",
-		Why: "last >= current becomes last > current: a replayed number is accepted",
+		Why:   "last >= current becomes last > current: a replayed number is accepted",
 		Edits: []Edit{{File: "header_fields.go", Old: `	if last >= current {`, New: `	if last > current {`}}})
 	addMutant(Mutant{Name: "c08-compare-with-request", Props: []string{"C08"}, Rule: "R-SEQ", KeySub: "progression",
-		Why: "the progression check compares the request's number with itself instead of the stored one",
+		Why:   "the progression check compares the request's number with itself instead of the stored one",
 		Edits: []Edit{{File: "sessions.go", Old: `LastSequence(sc.header.SeqNo).Validate(h.SeqNo)`, New: `LastSequence(h.SeqNo - 1).Validate(h.SeqNo)`}}})
 	addMutant(Mutant{Name: "c08-no-delete-when-finished", Props: []string{"C08"}, Rule: "R-LOOP", KeySub: "delete-when-no-continuation",
 		Why: "finished sessions keep their entry: a later packet with that id is checked against a stale number and handler nil",
@@ -90,7 +90,7 @@ func init() {
 	var current uint8`},
 			{File: "header_fields.go", Old: `		current = uint16(v)`, New: `		current = uint8(v)`}}})
 	addMutant(Mutant{Name: "c08-update-with-request-header", Props: []string{"C08"}, Rule: "R-LOOP", KeySub: "update-args",
-		Why: "the entry is updated with the request header: the reply's number is not recorded as 'sent'",
+		Why:   "the entry is updated with the request header: the reply's number is not recorded as 'sent'",
 		Edits: []Edit{{File: "server.go", Old: `sessionProvider.update(resp.header, resp.next)`, New: `sessionProvider.update(req.Header, resp.next)`}}})
 	addMutant(Mutant{Name: "c08-lookup-other-key", Props: []string{"C08"}, Rule: "R-SEQ", KeySub: "",
 		Why: "the handler returned on a hit ignores the validators' outcome (returned before validation)",
@@ -102,7 +102,7 @@ func init() {
 func init() {
 	// ---- C05 ------------------------------------------------------------------------------
 	addMutant(Mutant{Name: "c05-readfull-to-read", Props: []string{"C05"}, Rule: "R-FRAMING", KeySub: "only-readfull",
-		Why: "the body is read with a single Read: on loopback one Read returns the whole body, on a real network it may not",
+		Why:   "the body is read with a single Read: on loopback one Read returns the whole body, on a real network it may not",
 		Edits: []Edit{{File: "crypt.go", Old: `	if _, err := io.ReadFull(c.Reader, b); err != nil {`, New: `	if _, err := c.Reader.Read(b); err != nil {`}}})
 	addMutant(Mutant{Name: "c05-reader-per-read", Props: []string{"C05"}, Rule: "R-FRAMING", KeySub: "",
 		Why: "a new bufio.Reader is built for every read: bytes of the next packet buffered by the previous reader are lost",
@@ -157,7 +157,7 @@ func init() {
 			}
 `, New: ``}}})
 	addMutant(Mutant{Name: "c17-zero-deadline", Props: []string{"C17"}, Rule: "R-LOOP", KeySub: "deadline",
-		Why: "a zero time.Time disables the deadline",
+		Why:   "a zero time.Time disables the deadline",
 		Edits: []Edit{{File: "server.go", Old: `c.SetReadDeadline(time.Now().Add(15 * time.Second))`, New: `c.SetReadDeadline(time.Time{})`}}})
 	addMutant(Mutant{Name: "c17-no-wait", Props: []string{"C17"}, Rule: "R-PAIR", KeySub: "deferred-close-and-wait",
 		Why: "Serve no longer waits for the connection goroutines",
@@ -233,7 +233,7 @@ func init() {
 func init() {
 	// ---- C12 ------------------------------------------------------------------------------
 	addMutant(Mutant{Name: "c12-revert-printf-fix", Props: []string{"C12"}, Rule: "R-FMT", KeySub: "Printf",
-		Why: "the record is the format string again",
+		Why:   "the record is the format string again",
 		Edits: []Edit{{File: "cmds/server/config/accounters/local/local.go", Old: `a.sink.Printf("%s", jsonLog)`, New: `a.sink.Printf(string(jsonLog))`}}})
 	addMutant(Mutant{Name: "c12-success-before-sink", Props: []string{"C12"}, Rule: "R-ORDER", KeySub: "sink-before-success",
 		Why: "for start records the reply is sent before the record is written",
@@ -318,7 +318,7 @@ func init() {
 	return true
 }`}}})
 	addMutant(Mutant{Name: "c11-prepend-group-rules", Props: []string{"C11"}, Rule: "R-FIRSTMATCH", KeySub: "user-rules-before-group-rules",
-		Why: "group rules are put before user rules",
+		Why:   "group rules are put before user rules",
 		Edits: []Edit{{File: "cmds/server/config/authorizers/stringy/stringy.go", Old: `		u.Commands = append(u.Commands, g.Commands...)`, New: `		u.Commands = append(g.Commands, u.Commands...)`}}})
 	addMutant(Mutant{Name: "c11-revert-anchor-fix", Props: []string{"C11"}, Rule: "R-ANCHOR", KeySub: "regexp",
 		Why: "byte-inspection anchoring comes back",
@@ -374,7 +374,7 @@ func init() {
 			tq.SetAuthorReplyServerMsg("authorization denied"),`, New: `			tq.SetAuthorReplyStatus(tq.AuthorStatusPassAdd),
 			tq.SetAuthorReplyServerMsg("authorization denied"),`}}})
 	addMutant(Mutant{Name: "c11-match-subject-with-cr", Props: []string{"C11"}, Rule: "R-FIRSTMATCH", KeySub: "subject",
-		Why: "patterns are matched against the argument string including the trailing <cr>",
+		Why:   "patterns are matched against the argument string including the trailing <cr>",
 		Edits: []Edit{{File: "cmds/server/config/authorizers/stringy/command.go", Old: `regexp.MatchString(regexish, a.body.Args.CommandArgsNoLE())`, New: `regexp.MatchString(regexish, a.body.Args.CommandArgs())`}}})
 }
 
@@ -415,7 +415,7 @@ func init() {
 		Edits: []Edit{{File: "cmds/server/loader/yaml/yaml.go", Old: `	if err := yaml.Unmarshal(b, &c); err != nil {`, New: `	c = l.ServerConfig
 	if err := yaml.Unmarshal(b, &c); err != nil {`}}})
 	addMutant(Mutant{Name: "c16-decode-into-field-json", Props: []string{"C15", "C16"}, Rule: "R-FRESHDECODE", KeySub: "json",
-		Why: "the JSON loader decodes into the embedded ServerConfig",
+		Why:   "the JSON loader decodes into the embedded ServerConfig",
 		Edits: []Edit{{File: "cmds/server/loader/json/json.go", Old: `	if err := json.Unmarshal(b, &c); err != nil {`, New: `	if err := json.Unmarshal(b, &l.ServerConfig); err != nil {`}}})
 	addMutant(Mutant{Name: "c16-publish-before-check", Props: []string{"C16"}, Rule: "R-FRESHDECODE", KeySub: "",
 		Why: "the configuration is published before the minimum-content check on users",
@@ -429,27 +429,27 @@ func init() {
 		return fmt.Errorf("no users were unmarshalled from config, cannot serve")
 	}`}}})
 	addMutant(Mutant{Name: "c16-providers-appended", Props: []string{"C16"}, Rule: "R-FRESHDECODE", KeySub: "consumer-replaces",
-		Why: "providers of a new configuration are appended to the old list",
+		Why:   "providers of a new configuration are appended to the old list",
 		Edits: []Edit{{File: "cmds/server/loader/loader.go", Old: `			providers = l.build(c)`, New: `			providers = append(providers, l.build(c)...)`}}})
 	addMutant(Mutant{Name: "c16-publish-old-struct", Props: []string{"C16"}, Rule: "R-FRESHDECODE", KeySub: "published",
-		Why: "the loader publishes its long-lived copy rather than the fresh value",
+		Why:   "the loader publishes its long-lived copy rather than the fresh value",
 		Edits: []Edit{{File: "cmds/server/loader/json/json.go", Old: `	l.config <- c`, New: `	l.config <- l.ServerConfig`}}})
 }
 
 func init() {
 	// ---- C18 ------------------------------------------------------------------------------
 	addMutant(Mutant{Name: "c18-log-pap-data", Props: []string{"C18"}, Rule: "R-TAINT", KeySub: "AuthenticatePAP",
-		Why: "the PAP debug line also prints body.Data (the password)",
+		Why:   "the PAP debug line also prints body.Data (the password)",
 		Edits: []Edit{{File: "cmds/server/handlers/authen_pap.go", Old: `		a.Debugf(request.Context, "[%v] [%v] username is missing for rem-addr: [%v]", request.Header.SessionID, body.RemAddr)`, New: `		a.Debugf(request.Context, "[%v] [%v] username is missing for rem-addr: [%v]", request.Header.SessionID, body.RemAddr, body.Data)`}}})
 	addMutant(Mutant{Name: "c18-revert-obscure-data", Props: []string{"C18"}, Rule: "R-TAINT", KeySub: "record",
-		Why: "the repaired obscure list loses 'data' again",
+		Why:   "the repaired obscure list loses 'data' again",
 		Edits: []Edit{{File: "cmds/server/handlers/authen.go", Old: `tq.ContextConnLocalAddr), "user-msg", "data")`, New: `tq.ContextConnLocalAddr), "user-msg")`}}})
 	addMutant(Mutant{Name: "c18-retain-usermsg-in-getpassword", Props: []string{"C18"}, Rule: "R-TAINT", KeySub: "getPassword",
 		Why: "getPassword retains user-msg (the password) in the logging context",
 		Edits: []Edit{{File: "cmds/server/handlers/authen_ascii.go", Old: `	// missing password, don't query backend for user`, New: `	a.RecordCtx(&request, tq.ContextUserMsg)
 	// missing password, don't query backend for user`}}})
 	addMutant(Mutant{Name: "c18-log-secretconfig", Props: []string{"C18"}, Rule: "R-TAINT", KeySub: "build",
-		Why: "the loader logs the whole secret configuration (including the key)",
+		Why:   "the loader logs the whole secret configuration (including the key)",
 		Edits: []Edit{{File: "cmds/server/loader/loader.go", Old: `		l.Infof(l.ctx, "processing secret config [%v:%v]", provider.Name, provider.Type)`, New: `		l.Infof(l.ctx, "processing secret config [%v:%v] %+v", provider.Name, provider.Type, provider)`}}})
 	addMutant(Mutant{Name: "c18-password-in-reply", Props: []string{"C18"}, Rule: "R-TAINT", KeySub: "reply-field",
 		Why: "the failure reply echoes the password the client sent",
@@ -463,10 +463,10 @@ func init() {
 			tq.SetAuthenReplyStatus(tq.AuthenStatusFail),
 			tq.SetAuthenReplyServerMsg("login failure for "+password),`}}})
 	addMutant(Mutant{Name: "c18-log-connection-secret", Props: []string{"C18"}, Rule: "R-TAINT", KeySub: "handle",
-		Why: "the key-mismatch error mentions the secret in use",
+		Why:   "the key-mismatch error mentions the secret in use",
 		Edits: []Edit{{File: "crypt.go", Old: `		return nil, fmt.Errorf("bad secret detected for ip [%s]", c.RemoteAddr().String())`, New: `		return nil, fmt.Errorf("bad secret detected for ip [%s] (ours %q)", c.RemoteAddr().String(), c.secret)`}}})
 	addMutant(Mutant{Name: "c18-log-bcrypt-password", Props: []string{"C18"}, Rule: "R-TAINT", KeySub: "bcrypt",
-		Why: "the bcrypt failure line prints the candidate password",
+		Why:   "the bcrypt failure line prints the candidate password",
 		Edits: []Edit{{File: "cmds/server/config/authenticators/bcrypt/bcrypt.go", Old: `	a.Errorf(request.Context, "failed to validate the user [%v] using a bcrypt password", a.username)`, New: `	a.Errorf(request.Context, "failed to validate the user [%v] using a bcrypt password [%v]", a.username, password)`}}})
 	addMutant(Mutant{Name: "c18-log-whole-body", Props: []string{"C18"}, Rule: "R-TAINT", KeySub: "AuthenticatePAP",
 		Why: "a debug line prints the whole decoded START body",
@@ -584,10 +584,10 @@ func init() {
 func init() {
 	// ---- C02 ------------------------------------------------------------------------------
 	addMutant(Mutant{Name: "c02-drop-one-width-bound", Props: []string{"C02"}, Rule: "R-NARROW", KeySub: "AuthenStart.MarshalBinary:len:Port",
-		Why: "one of the repaired width bounds is dropped (port)",
+		Why:   "one of the repaired width bounds is dropped (port)",
 		Edits: []Edit{{File: "authenticate.go", Old: `	if len(a.User) > 0xff || len(a.Port) > 0xff || len(a.RemAddr) > 0xff || len(a.Data) > 0xff {`, New: `	if len(a.User) > 0xff || len(a.RemAddr) > 0xff || len(a.Data) > 0xff {`}}})
 	addMutant(Mutant{Name: "c02-bound-off-by-one", Props: []string{"C02"}, Rule: "R-NARROW", KeySub: "AcctReply.MarshalBinary:len:ServerMsg",
-		Why: "the 16-bit bound is written as 0x10000: a 65536-byte message wraps to length 0",
+		Why:   "the 16-bit bound is written as 0x10000: a 65536-byte message wraps to length 0",
 		Edits: []Edit{{File: "accounting.go", Old: `	if len(a.ServerMsg) > 0xffff || len(a.Data) > 0xffff {`, New: `	if len(a.ServerMsg) > 0x10000 || len(a.Data) > 0xffff {`}}})
 	addMutant(Mutant{Name: "c02-marshal-without-validate", Props: []string{"C02"}, Rule: "R-VALIDATE-PASS", KeySub: "AuthorReply.MarshalBinary",
 		Why: "AuthorReply.MarshalBinary no longer validates",
@@ -620,7 +620,7 @@ func init() {
 	}
 	return nil`}}})
 	addMutant(Mutant{Name: "c02-arg-upper-bound-gone", Props: []string{"C02"}, Rule: "R-NARROW", KeySub: "elemlen:Args",
-		Why: "Arg.Validate no longer bounds the argument length from above",
+		Why:   "Arg.Validate no longer bounds the argument length from above",
 		Edits: []Edit{{File: "authorize_fields.go", Old: `	if len(t) < 2 || len(t) > 255 {`, New: `	if len(t) < 2 {`}}})
 	addMutant(Mutant{Name: "c02-seqno-bound-gone", Props: []string{"C02", "C06"}, Rule: "R-NARROW", KeySub: "val:SeqNo",
 		Why: "SequenceNumber.Validate no longer rejects numbers above 255: 256 is written as octet 0",
@@ -658,7 +658,7 @@ func init() {
 func init() {
 	// ---- C04 / C14 --------------------------------------------------------------------------
 	addMutant(Mutant{Name: "c04-min-length-constant-lowered", Props: []string{"C04", "C14"}, Rule: "R-BOUNDS", KeySub: "AcctRequest",
-		Why: "AcctRequestLen 9 -> 8: data[8] is read from an 8-byte input",
+		Why:   "AcctRequestLen 9 -> 8: data[8] is read from an 8-byte input",
 		Edits: []Edit{{File: "accounting.go", Old: `const AcctRequestLen = 0x9`, New: `const AcctRequestLen = 0x8`}}})
 	addMutant(Mutant{Name: "c04-revert-packet-guard", Props: []string{"C04", "C14"}, Rule: "R-BOUNDS", KeySub: "Packet",
 		Why: "the repaired len(v) guard of Packet.UnmarshalBinary is removed again",
@@ -688,7 +688,7 @@ func init() {
 	}
 `, New: ``}}})
 	addMutant(Mutant{Name: "c04-body-slice-up-to-cap", Props: []string{"C04"}, Rule: "R-BOUNDS", KeySub: "Packet",
-		Why: "the packet decoder compares the announced length with cap(v) instead of len(v)",
+		Why:   "the packet decoder compares the announced length with cap(v) instead of len(v)",
 		Edits: []Edit{{File: "packet.go", Old: `	if len(v) < MaxHeaderLength+int(h.Length) {`, New: `	if cap(v) < MaxHeaderLength+int(h.Length) {`}}})
 	addMutant(Mutant{Name: "c04-oversize-check-dropped-in-packet", Props: []string{"C04"}, Rule: "R-", KeySub: "",
 		Why: "Packet.UnmarshalBinary no longer limits the announced length (only matters with the 32-bit conversion)",
@@ -714,7 +714,7 @@ func init() {
 
 func init() {
 	addMutant(Mutant{Name: "c14-revert-keychain-fix", Props: []string{"C14"}, Rule: "R-NILIFACE", KeySub: "bcrypt",
-		Why: "the bcrypt factory drops the keychain again",
+		Why:   "the bcrypt factory drops the keychain again",
 		Edits: []Edit{{File: "cmds/server/config/authenticators/bcrypt/bcrypt.go", Old: `	return &Authenticator{loggerProvider: a.loggerProvider, username: username, supportedOptions: opts, getSecret: a.getSecret}, nil`, New: `	return &Authenticator{loggerProvider: a.loggerProvider, username: username, supportedOptions: opts}, nil`}}})
 	addMutant(Mutant{Name: "c14-getuser-unchecked", Props: []string{"C14"}, Rule: "R-NILCHECK", KeySub: "AuthenticatePAP",
 		Why: "the nil check after GetUser is dropped in the PAP handler: unknown users crash the server",
@@ -737,7 +737,7 @@ func init() {
 		return
 	}`}}})
 	addMutant(Mutant{Name: "c14-logger-dropped-from-response-logger", Props: []string{"C14"}, Rule: "R-NILIFACE", KeySub: "ResponseLogger",
-		Why: "the packet logger builds its ResponseLogger without a logger: the first logged reply dereferences nil",
+		Why:   "the packet logger builds its ResponseLogger without a logger: the first logged reply dereferences nil",
 		Edits: []Edit{{File: "cmds/server/handlers/response_logger.go", Old: `	return &ctxLogger{loggerProvider: l, Writer: &ResponseLogger{loggerProvider: l}}`, New: `	return &ctxLogger{loggerProvider: l, Writer: &ResponseLogger{}}`}}})
 }
 
@@ -780,7 +780,7 @@ func init() {
 		}
 `, New: ``}}})
 	addMutant(Mutant{Name: "c03-seq-octet-from-constant", Props: []string{"C03"}, Rule: "R-PADSHAPE", KeySub: "hash-input-order",
-		Why: "the sequence octet fed to the hash is always 1",
+		Why:   "the sequence octet fed to the hash is always 1",
 		Edits: []Edit{{File: "crypt.go", Old: `	seqNo := []byte{byte(p.Header.SeqNo)}`, New: `	seqNo := []byte{byte(1)}`}}})
 	addMutant(Mutant{Name: "c03-unencrypted-check-after-pad", Props: []string{"C03"}, Rule: "R-PADSHAPE", KeySub: "clear-flag-first",
 		Why: "the clear flag is tested only for non-empty secrets",
@@ -794,7 +794,7 @@ func init() {
 
 	sessionID, err`}}})
 	addMutant(Mutant{Name: "c03-xor-skips-first-byte", Props: []string{"C03"}, Rule: "R-PADSHAPE", KeySub: "xor-in-place",
-		Why: "the XOR uses pad[i] for body[i] except a shifted index",
+		Why:   "the XOR uses pad[i] for body[i] except a shifted index",
 		Edits: []Edit{{File: "crypt.go", Old: `		p.Body[i] = b ^ pad[i]`, New: `		p.Body[i] = b ^ pad[len(pad)-1-i]`}}})
 }
 
@@ -805,7 +805,7 @@ func init() {
 		Edits: []Edit{{File: "handlers.go", Old: `		SetHeaderFlag(r.header.Flags),
 `, New: ``}}})
 	addMutant(Mutant{Name: "c06-minor-version-hardcoded", Props: []string{"C06"}, Rule: "R-MIRROR", KeySub: "mirror:Version",
-		Why: "the reply always carries minor version 0",
+		Why:   "the reply always carries minor version 0",
 		Edits: []Edit{{File: "handlers.go", Old: `		SetHeaderVersion(r.header.Version),`, New: `		SetHeaderVersion(Version{MajorVersion: MajorVersion, MinorVersion: MinorVersionDefault}),`}}})
 	addMutant(Mutant{Name: "c06-header-stored-only-on-success", Props: []string{"C06", "C08"}, Rule: "R-MIRROR", KeySub: "stored-header-advances",
 		Why: "the stored header is advanced only after a successful write",
@@ -833,20 +833,20 @@ func init() {
 	}
 	response.Reply(`}}})
 	addMutant(Mutant{Name: "c06-restart-for-error-too", Props: []string{"C06"}, Rule: "R-MIRROR", KeySub: "sequence",
-		Why: "ERROR replies also reset the sequence number to 1",
+		Why:   "ERROR replies also reset the sequence number to 1",
 		Edits: []Edit{{File: "handlers.go", Old: `		if t.Status == AuthenStatusRestart {`, New: `		if t.Status == AuthenStatusRestart || t.Status == AuthenStatusError {`}}})
 	addMutant(Mutant{Name: "c06-seq-computed-in-8-bits", Props: []string{"C06"}, Rule: "R-MIRROR", KeySub: "sequence",
-		Why: "the next sequence number is computed in 8 bits: 255+1 wraps to 0",
+		Why:   "the next sequence number is computed in 8 bits: 255+1 wraps to 0",
 		Edits: []Edit{{File: "handlers.go", Old: `	seqNo := int(r.header.SeqNo)`, New: `	seqNo := int(uint8(r.header.SeqNo) + 1 - 1)`}}})
 	addMutant(Mutant{Name: "c06-session-id-from-context", Props: []string{"C06"}, Rule: "R-MIRROR", KeySub: "mirror:SessionID",
-		Why: "the reply takes the session id from a fresh random value",
+		Why:   "the reply takes the session id from a fresh random value",
 		Edits: []Edit{{File: "handlers.go", Old: `		SetHeaderSessionID(r.header.SessionID),`, New: `		SetHeaderSessionID(SessionID(uint32(r.header.SessionID)|0)+SessionID(len(r.writers))),`}}})
 }
 
 func init() {
 	// ---- C19 ------------------------------------------------------------------------------
 	addMutant(Mutant{Name: "c19-threshold-two-for-authentication", Props: []string{"C19"}, Rule: "R-SIBLING", KeySub: "Authenticate:threshold",
-		Why: "two of three failed decoders already count as a key mismatch: valid requests are flagged",
+		Why:   "two of three failed decoders already count as a key mismatch: valid requests are flagged",
 		Edits: []Edit{{File: "crypt.go", Old: `		if errCnt == 3 {`, New: `		if errCnt >= 2 && errCnt == errCnt/1 && errCnt != 0 && errCnt == 2 {`}}})
 	addMutant(Mutant{Name: "c19-continue-trial-dropped", Props: []string{"C19"}, Rule: "R-SIBLING", KeySub: "Authenticate",
 		Why: "the CONTINUE decoder is no longer tried (threshold lowered accordingly): a valid CONTINUE under the right key is flagged when START and REPLY layouts mismatch",
@@ -898,13 +898,13 @@ func init() {
 			tq.SetAuthenReplyServerMsg("authentication denied"),`, New: `			tq.SetAuthenReplyStatus(tq.AuthenStatusPass),
 			tq.SetAuthenReplyServerMsg("authentication denied"),`}}})
 	addMutant(Mutant{Name: "c10-inverted-compare", Props: []string{"C10"}, Rule: "R-PROVENANCE", KeySub: "bcrypt",
-		Why: "the bcrypt result test is inverted",
+		Why:   "the bcrypt result test is inverted",
 		Edits: []Edit{{File: "cmds/server/config/authenticators/bcrypt/bcrypt.go", Old: `[]byte(password)); err == nil {`, New: `[]byte(password)); err != nil {`}}})
 	addMutant(Mutant{Name: "c10-getuser-constant", Props: []string{"C10"}, Rule: "R-PROVENANCE", KeySub: "authenticator-binding",
-		Why: "the PAP handler always verifies against the user 'admin'",
+		Why:   "the PAP handler always verifies against the user 'admin'",
 		Edits: []Edit{{File: "cmds/server/handlers/authen_pap.go", Old: `	c := a.GetUser(string(body.User))`, New: `	c := a.GetUser("admin")`}}})
 	addMutant(Mutant{Name: "c10-password-not-from-request", Props: []string{"C10"}, Rule: "R-PROVENANCE", KeySub: "bcrypt",
-		Why: "the authenticator compares the stored hash with the user name instead of the supplied password",
+		Why:   "the authenticator compares the stored hash with the user name instead of the supplied password",
 		Edits: []Edit{{File: "cmds/server/config/authenticators/bcrypt/bcrypt.go", Old: `bcrypt.CompareHashAndPassword(expectedHash, []byte(password))`, New: `bcrypt.CompareHashAndPassword(expectedHash, []byte(a.username+password[:0]))`}}})
 	addMutant(Mutant{Name: "c10-empty-password-reaches-authenticator", Props: []string{"C10"}, Rule: "R-ORDER", KeySub: "empty-password",
 		Why: "the empty-password shortcut of the ASCII flow is removed",
@@ -921,10 +921,10 @@ func init() {
 						opts = append(opts, config.SetAAAAuthenticator(a))
 					}`}}})
 	addMutant(Mutant{Name: "c10-getpass-state-via-getuser-reply", Props: []string{"C10"}, Rule: "R-PROVENANCE", KeySub: "next",
-		Why: "the initial handler registers the password continuation directly with its GETUSER prompt: the user name is then taken as password state",
+		Why:   "the initial handler registers the password continuation directly with its GETUSER prompt: the user name is then taken as password state",
 		Edits: []Edit{{File: "cmds/server/handlers/authen_ascii.go", Old: `		response.Next(tq.HandlerFunc(a.getUsername))`, New: `		response.Next(tq.HandlerFunc(a.getPassword))`}}})
 	addMutant(Mutant{Name: "c10-username-from-data", Props: []string{"C10"}, Rule: "R-PROVENANCE", KeySub: "authenticator-binding",
-		Why: "the user name is taken from the data field of the CONTINUE",
+		Why:   "the user name is taken from the data field of the CONTINUE",
 		Edits: []Edit{{File: "cmds/server/handlers/authen_ascii.go", Old: `		a.username = string(body.UserMessage)`, New: `		a.username = string(body.Data) + string(body.UserMessage)`}}})
 }
 
@@ -972,7 +972,7 @@ func init() {
 				continue
 			}`}}})
 	addMutant(Mutant{Name: "c13-keep-serving-after-lookup-failure", Props: []string{"C13"}, Rule: "R-ADMIT", KeySub: "refusal",
-		Why: "a refused connection is only logged; serving continues with a nil handler check removed for the secret",
+		Why:   "a refused connection is only logged; serving continues with a nil handler check removed for the secret",
 		Edits: []Edit{{File: "server.go", Old: `	if err != nil || secret == nil || handler == nil {`, New: `	if err != nil || handler == nil {`}}})
 	addMutant(Mutant{Name: "c13-empty-deny-list-denies", Props: []string{"C13"}, Rule: "R-ADMIT", KeySub: "deny-semantics",
 		Why: "an empty deny list refuses non-TCP and then everything falls to match: the early 'no opinion' return is dropped",
@@ -1000,7 +1000,7 @@ func init() {
 	for _, sp := range providers {
 		secret, handler, err := sp.Get(ctx, remote)`}}})
 	addMutant(Mutant{Name: "c13-keychain-of-first-secret", Props: []string{"C13"}, Rule: "R-ADMIT", KeySub: "provider-bound",
-		Why: "every provider gets the keychain function of the first secret configuration",
+		Why:   "every provider gets the keychain function of the first secret configuration",
 		Edits: []Edit{{File: "cmds/server/loader/loader.go", Old: `		secretFunc := l.keychainProvider.Add(provider.Secret)`, New: `		secretFunc := l.keychainProvider.Add(c.Secrets[0].Secret)`}}})
 }
 
@@ -1058,4 +1058,48 @@ func init() {
 		break
 	}
 `}}})
+}
+
+func init() {
+	addMutant(Mutant{Name: "c05-lossy-reader-wrapper", Props: []string{"C05"}, Rule: "R-FRAMING", KeySub: "reader-created-once",
+		Why: "the connection is wrapped in a reader whose Read under-reports what it consumed: bytes vanish between packets",
+		Edits: []Edit{{File: "crypt.go", Old: `Reader: bufio.NewReaderSize(c, 107)`, New: `Reader: bufio.NewReaderSize(lossyReader{Conn: c}, 107)`},
+			{File: "crypt.go", Old: `// newCrypter makes a new crypter`, New: `type lossyReader struct{ net.Conn }
+
+func (l lossyReader) Read(b []byte) (int, error) {
+	n, err := l.Conn.Read(b)
+	if n > 1 {
+		n--
+	}
+	return n, err
+}
+
+// newCrypter makes a new crypter`}}})
+	addMutant(Mutant{Name: "c06-response-header-not-from-request", Props: []string{"C06"}, Rule: "R-LOOP", KeySub: "E:response-header",
+		Why:   "the response starts from an empty header instead of the request's: replies carry session id 0",
+		Edits: []Edit{{File: "server.go", Old: `loggerProvider: s.loggerProvider, header: req.Header}`, New: `loggerProvider: s.loggerProvider, header: Header{}}`}}})
+	addMutant(Mutant{Name: "c09-delete-helper-conditional", Props: []string{"C08", "C09"}, Rule: "R-LOOP", KeySub: "delete-when-no-continuation",
+		Why: "the remover only deletes when the entry has a continuation: finished sessions whose entry holds nil stay",
+		Edits: []Edit{{File: "sessions.go", Old: `	delete(s.known, session)
+}`, New: `	if sc := s.known[session]; sc != nil && sc.Handler != nil {
+		delete(s.known, session)
+	}
+}`}}})
+}
+
+func init() {
+	addMutant(Mutant{Name: "c20-add-in-both-places", Props: []string{"C20"}, Rule: "R-PAIR", KeySub: "goroutine-gauge-paired",
+		Why: "the goroutine gauge is raised in the accept loop and again in the goroutine: it climbs by one per connection",
+		Edits: []Edit{{File: "server.go", Old: `func (s *Server) serve(ctx context.Context, conn net.Conn) {
+	defer s.Done()`, New: `func (s *Server) serve(ctx context.Context, conn net.Conn) {
+	s.Add(1)
+	defer s.Done()`}}})
+	addMutant(Mutant{Name: "c20-add-before-accept-error", Props: []string{"C20", "C17"}, Rule: "R-PAIR", KeySub: "",
+		Why: "Add(1) moves before the accept error test: a failed accept raises the count with no goroutine to lower it",
+		Edits: []Edit{{File: "server.go", Old: `			conn, err := listener.Accept()
+			if err != nil {`, New: `			conn, err := listener.Accept()
+			s.Add(1)
+			if err != nil {`},
+			{File: "server.go", Old: `			s.Add(1)
+			go s.serve(ctx, conn)`, New: `			go s.serve(ctx, conn)`}}})
 }
